@@ -169,3 +169,9 @@ Definition entry_rm (a : list str) : list str :=
       show_spec (removal_oracle sh rf (dec_rop op) m)
   | _ => [lit "?bad-case"]
   end.
+
+(** c06keys: … (reference a c)  ->  model ; spec *)
+Definition entry_keys (a : list str) : list str :=
+  let '(sh, rf, _) := dec_shell a in
+  let c := match rf with RAll c => c | _ => false end in
+  show_args (dq_args (member_keys sh c)) None ++ show_args (keys_spec sh c) None.
